@@ -243,6 +243,109 @@ func BuildCorpus(rng *Rand, thorough bool) (seeds []*Seed, notes []string) {
 			}
 		}
 	}
+	// ---- extreme geometry, tiny stream: constant / near-constant images with one very long side.
+	// They compress to a few dozen bytes, decode fast, stay inside the C09 domain (S <= 2^22) and
+	// drive the decoders into states no small image reaches (e.g. JPEG-LS run index saturation
+	// after 31 completed run segments needs a line of >= 32768 samples).
+	flat := func(w, h, comps, bits int, near bool) []byte {
+		bps := 1
+		if bits > 8 {
+			bps = 2
+		}
+		out := make([]byte, w*h*comps*bps)
+		v := 0 // constant 0 is coded as pure run mode from the first sample (a 65535x2 image is 32 bytes)
+		for i := 0; i < w*h*comps; i++ {
+			x := v
+			if near && (i == 7 || i == w*comps+3 || i%16001 == 16000) {
+				x = v + 1 + i%3 // a few interruptions of the runs
+			}
+			if bps == 1 {
+				out[i] = byte(x)
+			} else {
+				out[2*i], out[2*i+1] = byte(x), byte(x>>8)
+			}
+		}
+		return out
+	}
+	for gi, g := range []geom{{32768, 2}, {40000, 3}, {65535, 2}, {65535, 1}, {1, 65535}} {
+		for _, comps := range []int{1, 3} {
+			for ni, nearConst := range []bool{false, true} {
+				bits := 8
+				if (gi+comps+ni)%4 == 0 {
+					bits = 16
+				}
+				px := flat(g.w, g.h, comps, bits, nearConst)
+				tag := fmt.Sprintf("%dx%dx%d-b%d-%s", g.w, g.h, comps, bits, map[bool]string{false: "const", true: "nearconst"}[nearConst])
+				d := try("xjls", func() ([]byte, error) { return lslossless.Encode(px, g.w, g.h, comps, bits) })
+				add("xjls-"+tag, famJLS, []string{"jpegls/lossless.Decode", "codec[.80].Decode", "jpegls/nearlossless.Decode", "codec[.81].Decode"}, d, fiFor(g.w, g.h, comps, bits, false))
+				for _, near := range []int{0, 2} {
+					d = try("xjlsnear", func() ([]byte, error) { return lsnear.Encode(px, g.w, g.h, comps, bits, near) })
+					add(fmt.Sprintf("xjlsnear-%s-n%d", tag, near), famJLS, []string{"jpegls/nearlossless.Decode", "codec[.81].Decode", "jpegls/lossless.Decode"}, d, fiFor(g.w, g.h, comps, bits, false))
+				}
+			}
+		}
+	}
+	// the same class as literal streams (output of the clean library encoders, 65535x2 constant 0):
+	// they exercise the decoders even when the encoder of the tree under test is broken
+	for _, fx := range []struct {
+		name  string
+		comps int
+		home  string
+		hx    string
+	}{
+		{"xfixjls-65535x2x1-const", 1, "jpegls/lossless.Decode", "ffd8fff7000b080002ffff01011100ffda0008010100000000ff7fff7ff0ffd9"},
+		{"xfixjlsnear-65535x2x1-const-n2", 1, "jpegls/nearlossless.Decode", "ffd8fff7000b080002ffff01011100ffda0008010100020000ff7fff7ff0ffd9"},
+		{"xfixjls-65535x2x3-const", 3, "jpegls/lossless.Decode", "ffd8fff70011080002ffff03011100021100031100ffda000c03010002000300000200ff7fff7ff0ffd9"},
+		{"xfixjlsnear-65535x2x3-const-n2", 3, "jpegls/nearlossless.Decode", "ffd8fff70011080002ffff03011100021100031100ffda000c03010002000300020200ff7fff7ff0ffd9"},
+	} {
+		other := "jpegls/nearlossless.Decode"
+		cdc, cdc2 := "codec[.80].Decode", "codec[.81].Decode"
+		if fx.home == other {
+			other, cdc, cdc2 = "jpegls/lossless.Decode", "codec[.81].Decode", "codec[.80].Decode"
+		}
+		add(fx.name, famJLS, []string{fx.home, cdc, other, cdc2}, unhex(fx.hx), fiFor(65535, 2, fx.comps, 8, false))
+	}
+	for _, g := range []geom{{65535, 1}, {1, 65535}} {
+		px := flat(g.w, g.h, 1, 8, false)
+		d := try("xlossless", func() ([]byte, error) { return jlossless.Encode(px, g.w, g.h, 1, 8, 1) })
+		add(fmt.Sprintf("xlossless-%dx%dx1-b8-const", g.w, g.h), famJPEG, []string{"lossless.Decode", "codec[.57].Decode", "lossless14sv1.Decode"}, d, fiFor(g.w, g.h, 1, 8, false))
+		d = try("xsv1", func() ([]byte, error) { return lossless14sv1.Encode(px, g.w, g.h, 1, 8) })
+		add(fmt.Sprintf("xsv1-%dx%dx1-b8-const", g.w, g.h), famJPEG, []string{"lossless14sv1.Decode", "codec[.70].Decode", "lossless.Decode"}, d, fiFor(g.w, g.h, 1, 8, false))
+		// RLE through its codec
+		if c, ok := dcodec.GetGlobalRegistry().GetCodec(tsTable[0].ts()); ok {
+			fi := fiFor(g.w, g.h, 1, 8, false)
+			var out []byte
+			p, msg := Safely(func() {
+				src := helpers.NewTestPixelData(fi.frameInfo())
+				_ = src.AddFrame(px)
+				dst := helpers.NewTestPixelData(fi.frameInfo())
+				if err := c.Encode(src, dst, c.GetDefaultParameters()); err == nil && dst.FrameCount() > 0 {
+					out, _ = dst.GetFrame(0)
+				}
+			})
+			if p {
+				notes = append(notes, "encoder panic while building corpus: codec RLE extreme: "+msg)
+			}
+			add(fmt.Sprintf("xrle-%dx%dx1-b8-const", g.w, g.h), famRLE, []string{"codec[RLE].Decode"}, out, fi)
+		}
+	}
+	{
+		px := flat(65535, 8, 1, 8, false)
+		d := try("xbaseline", func() ([]byte, error) { return baseline.Encode(px, 65535, 8, 1, 90) })
+		add("xbaseline-65535x8x1-const", famJPEG, []string{"baseline.Decode", "codec[.50].Decode", "extended.Decode"}, d, fiFor(65535, 8, 1, 8, false))
+	}
+	for _, g := range []geom{{4096, 1}, {1, 4096}} {
+		px := flat(g.w, g.h, 1, 8, false)
+		p := jpeg2000.DefaultEncodeParams(g.w, g.h, 1, 8, false)
+		p.NumLevels = 0
+		d := try("xj2k", func() ([]byte, error) { return jpeg2000.NewEncoder(p).Encode(px) })
+		add(fmt.Sprintf("xj2k-%dx%dx1-b8-rev-L0", g.w, g.h), famJ2K, []string{"jpeg2000.Decoder.Decode", "codec[.90].Decode", "jpeg2000.Decoder.Decode+HT"}, d, fiFor(g.w, g.h, 1, 8, false))
+		q := *p
+		q.HTJ2KMode, q.ProgressionOrder = true, 2
+		q.BlockEncoderFactory = func(w, h int) jpeg2000.BlockEncoder { return htj2k.NewHTEncoder(w, h) }
+		d = try("xhtj2k", func() ([]byte, error) { return jpeg2000.NewEncoder(&q).Encode(px) })
+		add(fmt.Sprintf("xhtj2k-%dx%dx1-b8-rev-L0", g.w, g.h), famJ2K, []string{"jpeg2000.Decoder.Decode+HT", "codec[.201].Decode", "jpeg2000.Decoder.Decode"}, d, fiFor(g.w, g.h, 1, 8, false))
+	}
 	// ---- every registered codec's own Encode (default parameters) on a few geometries
 	for ti, t := range tsTable {
 		c, ok := dcodec.GetGlobalRegistry().GetCodec(t.ts())
